@@ -22,7 +22,9 @@
 EXTENDS Integers, Sequences, FiniteSets, TLC, Json
 
 CONSTANTS Method,       \* methods exercised (subset of AllMethod)
-          SwitchVal,    \* settings of the governance switch: "off", "staking", "crosschain", or a method name
+          SwitchVal,    \* settings of the governance switch: SEQUENCES of entries, an entry being "staking" /
+                        \* "crosschain" (the whole precompile address) or a method name (address/method id);
+                        \* <<>> = nothing disabled.  The order is the order of SwitchParams.DisablePrecompiles.
           ApproveAmt,   \* amounts an owner may approve (moved amount S = 2: 1 less, 2 equal, 3 more)
           MaxCall, MaxApprove
 
@@ -49,7 +51,7 @@ VARIABLES fx,      \* [Acc -> Nat]  FX balance, whole units
           pool,    \* [Acc -> [n, amt, fee]] pooled outgoing transfers of the account
           calls,   \* [Acc -> Nat]  token amount in outgoing bridge calls of the account
           parked,  \* [Acc -> Nat]  parked deposits whose receiver is the account
-          switch,  \* governance switch
+          switch,  \* governance switch: sequence of disabled entries
           ncall, napp,
           op
 
@@ -74,15 +76,16 @@ Init ==
   /\ ubd = [a \in Acc |-> 0] /\ red = [a \in Acc |-> 0]
   /\ pool = [a \in Acc |-> [n |-> 1, amt |-> 4, fee |-> 1]]
   /\ calls = [a \in Acc |-> 0] /\ parked = [a \in Acc |-> 1]
-  /\ switch = "off" /\ ncall = 0 /\ napp = 0
-  /\ op = Op("Init", None, None, None, None, None, None, 0, None, "ok")
+  /\ switch = <<>> /\ ncall = 0 /\ napp = 0
+  /\ op = Op("Init", None, None, None, None, None, None, 0, <<>>, "ok")
 
 Rej(o) == op' = [o EXCEPT !.res = "rej"] /\ UNCHANGED svars
 
 CallerOf(chain) == CASE chain = "user->P" -> "user" [] chain = "user->A->P" -> "A" [] OTHER -> "B"
 Named(naming, c) == CASE naming = "caller" -> c [] naming = "victim" -> "victim" [] OTHER -> (IF c = "user" THEN "A" ELSE "user")
 PrecompileOf(m) == IF m \in StakingM \cup ReadM THEN "staking" ELSE "crosschain"
-DisabledIn(sw, m) == sw = PrecompileOf(m) \/ sw = m
+\* disabled iff ANY entry names the method or its precompile's address, wherever it stands in the list
+DisabledIn(sw, m) == \E i \in DOMAIN sw : sw[i] = PrecompileOf(m) \/ sw[i] = m
 
 Install(r) ==
   /\ fx' = r.fx /\ frac' = r.frac /\ tok' = r.tok /\ coin' = r.coin /\ sh' = r.sh /\ sh1' = r.sh1 /\ rew' = r.rew
@@ -127,7 +130,7 @@ Effect(m, c, nm) ==
 SelfTransfer(m, c, nm) == m \in {"transferShares", "transferFromShares"} /\ nm = c
 
 Call(m, chain, kind, naming) ==
-  LET this == Op("Call", m, chain, kind, naming, None, None, 0, None, "ok")
+  LET this == Op("Call", m, chain, kind, naming, None, None, 0, <<>>, "ok")
       c    == CallerOf(chain)
       nm   == Named(naming, c)
       okk  == /\ ~DisabledIn(switch, m)
@@ -139,7 +142,7 @@ Call(m, chain, kind, naming) ==
 
 \* the owner's own approveShares(validator 0, spender, n) - an EOA transaction, or the contract calling the precompile
 Approve(o, s, n) ==
-  LET this == Op("Approve", None, None, None, None, o, s, n, None, "ok")
+  LET this == Op("Approve", None, None, None, None, o, s, n, <<>>, "ok")
   IN IF DisabledIn(switch, "approveShares") THEN Rej(this) ELSE
      /\ allow' = [allow EXCEPT ![o][s] = n]
      /\ napp' = napp + 1 /\ op' = this
@@ -150,7 +153,7 @@ SetSwitch(x) ==
   /\ switch' = x /\ op' = Op("SetSwitch", None, None, None, None, None, None, 0, x, "ok")
   /\ UNCHANGED <<pvars, ncall, napp>>
 
-Probe == op' = Op("Probe", None, None, None, None, None, None, 0, None, "ok") /\ UNCHANGED svars
+Probe == op' = Op("Probe", None, None, None, None, None, None, 0, <<>>, "ok") /\ UNCHANGED svars
 
 Next ==
   /\ ncall < MaxCall     \* horizon: nothing is claimed after MaxCall accepted calls (no Probe there: frontier)
@@ -212,7 +215,9 @@ C10_RefusedIsNoop == [][A_C10_RefusedIsNoop]_vars
 
 ---------------------------------------------------------------------------
 View == svars
-Bounded == napp' <= MaxApprove
+\* allowance grants are combined with the single-entry switch settings only (multi-entry lists are explored
+\* from the grant-free state)
+Bounded == napp' <= MaxApprove /\ (napp' >= 1 => Len(switch') <= 1)
 EdgeDump == /\ IF op.name = "Init" \/ op'.res = "ok"
                THEN PrintT(<<"EDGE", ToJson([from |-> Abs, op |-> op', to |-> Abs'])>>)
                ELSE TRUE
